@@ -165,3 +165,7 @@ def expected(model):
 
 def frames(model):
     return [_expect(m) for m in model["frames"]]
+
+
+# Classes that are generated but NOT asserted by C03 (triage decisions, see DESIGN.md section 7): class -> reason
+NOT_ASSERTED = {'names_not_elements': 'element taken from the atom name is a documented heuristic of the reader; only names <Symbol><index> are in the domain (DESIGN 3.2)'}
